@@ -48,13 +48,16 @@ theorem const_attribute_codes :
     stunDecAttrLifetime = stunEncAttrLifetime ∧ stunDecAttrUseCandidate = stunEncAttrUseCandidate ∧
     stunEncMiAttrLen = 4 + 20 ∧ stunEncFpAttrLen = 4 + 4 := by decide
 
-/-- RFC 8445 §5.1.2.2 recommended type preferences, RFC 6544 §4.2 style local preferences. -/
+/-- RFC 8445 §5.1.2.2 recommended type preferences; local preference 65535 for UDP. The TCP local preferences
+are pinned to the values the code documents (passive 65535 > active 65534 > so 65533): this is rustrtc's own
+choice and DEVIATES from RFC 6544 §4.2 (direction preference active > passive > so, and TCP below UDP for the
+same type) — recorded in NOTES as a deviation, pinned here so that any change is reported. -/
 theorem const_priority_tables :
     icePrefUdpHost = 126 ∧ icePrefUdpPeerReflexive = 110 ∧ icePrefUdpServerReflexive = 100 ∧ icePrefUdpRelay = 0 ∧
     icePrefTcpHost = icePrefUdpHost ∧ icePrefTcpPeerReflexive = icePrefUdpPeerReflexive ∧
     icePrefTcpServerReflexive = icePrefUdpServerReflexive ∧ icePrefTcpRelay = icePrefUdpRelay ∧
-    iceLocalPrefUdp = 65535 ∧ iceLocalPrefTcpPassive ≤ 65535 ∧ iceLocalPrefTcpActive ≤ 65535 ∧
-    iceLocalPrefTcpSo ≤ 65535 ∧ iceComponentClamp = 256 := by decide
+    iceLocalPrefUdp = 65535 ∧ iceLocalPrefTcpPassive = 65535 ∧ iceLocalPrefTcpActive = 65534 ∧
+    iceLocalPrefTcpSo = 65533 ∧ iceComponentClamp = 256 := by decide
 
 /-! ### XOR-MAPPED / XOR-PEER / XOR-RELAYED addresses -/
 
@@ -263,8 +266,12 @@ theorem data_indication_roundtrip (P : Prims) (tx : Bytes) (peer : Addr) (data :
   rw [classifyRx_encode P _ key fp hm, stunCase, stun_decode_encode P _ key fp htx hok hs]
   simp [applyAttr, emptyDecoded]
 
-/-- **turn_requests_verify**: each authenticated TURN request the client builds (Allocate retry,
-CreatePermission, ChannelBind, Refresh / destroy) passes the independent MESSAGE-INTEGRITY check under
+/-- **turn_requests_verify**: each authenticated TURN *request* the client builds (Allocate retry,
+CreatePermission, ChannelBind, Refresh / destroy; the Send indication is `turn_send_indication_verifies`, the
+first, credential-less Allocate carries no MESSAGE-INTEGRITY by design). `a.key` is whatever key the client
+holds: that it is `MD5(user:realm:pass)` is the definition `Turn.longTermKey` (MD5 abstract) and is tied to
+the code and to the reference crate's own derivation only by the `ltkey` stream and the TURN oracles —
+there is no theorem about the key derivation. passes the independent MESSAGE-INTEGRITY check under
 the long-term key and the FINGERPRINT check, and decodes to the method / realm / nonce / peer it was
 built for. -/
 theorem turn_requests_verify (P : Prims) (tx : Bytes) (a : Auth) (peer : Addr) (ch lt : Nat) (m : Msg)
@@ -290,6 +297,25 @@ theorem turn_requests_verify (P : Prims) (tx : Bytes) (a : Auth) (peer : Addr) (
   simp only [List.mem_cons, List.not_mem_nil, or_false] at hm
   rcases hm with rfl | rfl | rfl | rfl <;>
     simp [allocateMsg, createPermissionMsg, channelBindMsg, refreshMsg, authAttrs, applyAttr, emptyDecoded]
+
+/-- the authenticated Send indication (USERNAME, REALM, NONCE, XOR-PEER-ADDRESS, DATA) verifies under the
+client's key and decodes to its peer and payload -/
+theorem turn_send_indication_verifies (P : Prims) (tx : Bytes) (a : Auth) (peer : Addr) (data : Bytes)
+    (htx : tx.length = 12) (hp : peer.Wf) (hr : validUtf8 a.realm = true) (hn : validUtf8 a.nonce = true)
+    (hs : Sized (sendIndication tx (some a) peer data).1) :
+    let m := (sendIndication tx (some a) peer data).1
+    integrityOk P a.key (encode P m (some a.key) true) = true ∧ fingerprintOk P (encode P m (some a.key) true) = true ∧
+    ∃ d, decode (encode P m (some a.key) true) = .ok d ∧ d.cls = .indication ∧ d.method = .send ∧
+      d.peer = some peer ∧ d.data = some data := by
+  intro m
+  have hok : ∀ x ∈ m.attrs, x.Ok := by
+    intro x hx
+    simp only [m, sendIndication, authAttrs, List.cons_append, List.nil_append, List.mem_cons, List.not_mem_nil, or_false] at hx
+    rcases hx with rfl | rfl | rfl | rfl | rfl <;> first | trivial | assumption
+  have hwf : m.Wf := ⟨htx, fun x hx => StunRfc.Attr.Ok.addrWf (hok x hx)⟩
+  refine ⟨mi_verifies P m a.key true hwf hs, fp_verifies P m (some a.key) hwf hs, _,
+    stun_decode_encode P m (some a.key) true htx hok hs, ?_⟩
+  simp [m, sendIndication, authAttrs, applyAttr, emptyDecoded]
 
 /-! ### ICE candidate priority (RFC 8445 §5.1.2.1) -/
 
@@ -325,27 +351,16 @@ example : priorityFor .host 1 = 2130706431 ∧ priorityForTcp .host 1 .active = 
 
 /-! ### candidate-pair priority (RFC 8445 §6.1.2.3) -/
 
-/-- **pair_priority_symmetric**: the controlling agent (local `x`, remote `y`) and the controlled agent
-(local `y`, remote `x`) compute the same pair priority — for all priority pairs. -/
-theorem pair_priority_symmetric (x y : Nat) :
-    pairPriority .controlling x y = pairPriority .controlled y x :=
-  pairPriority_swap x y
-
-/-- Hence both agents order any two candidate pairs identically. -/
-theorem pair_order_agree (x1 y1 x2 y2 : Nat) :
-    (pairPriority .controlling x1 y1 < pairPriority .controlling x2 y2 ↔
-      pairPriority .controlled y1 x1 < pairPriority .controlled y2 x2) ∧
-    (pairPriority .controlling x1 y1 = pairPriority .controlling x2 y2 ↔
-      pairPriority .controlled y1 x1 = pairPriority .controlled y2 x2) := by
-  rw [pair_priority_symmetric x1 y1, pair_priority_symmetric x2 y2]
-  exact ⟨Iff.rfl, Iff.rfl⟩
-
-/-- The value is the RFC's `2^32·MIN(G,D) + 2·MAX(G,D) + (G>D ? 1 : 0)` with G the controlling
-agent's candidate priority. -/
+/-- **pair_priority_formula**: the value is the RFC's `2^32·MIN(G,D) + 2·MAX(G,D) + (G>D ? 1 : 0)` with G the
+controlling agent's candidate priority — hence the controlling agent (local `l`, remote `r`) and the
+controlled agent (local `r`, remote `l`) compute the same number for the same pair. (By unfolding; the
+statement about the ORDER the stack computes from these numbers is `pair_order_agree_stack` /
+`pair_order_tie_witness`.) -/
 theorem pair_priority_formula (l r : Nat) :
     pairPriority .controlling l r = 2 ^ 32 * min l r + 2 * max l r + (if l > r then 1 else 0) ∧
-    pairPriority .controlled l r = 2 ^ 32 * min r l + 2 * max r l + (if r > l then 1 else 0) :=
-  ⟨rfl, rfl⟩
+    pairPriority .controlled l r = 2 ^ 32 * min r l + 2 * max r l + (if r > l then 1 else 0) ∧
+    pairPriority .controlling l r = pairPriority .controlled r l :=
+  ⟨rfl, rfl, rfl⟩
 
 /-- It fits `u64` (no wrap / overflow panic) unless *both* priorities are `2^32 − 1`; in particular
 for all priorities in the RFC range `< 2^31`. -/
@@ -468,6 +483,17 @@ theorem candidate_line_stable (T : AddrText) (c : Cand) (h : WfCand T c) :
   · subst hty; cases re <;> simp
   · simp [hty]
 
+/-- the OTHER reading of "candidate lines survive" — `to_sdp(from_sdp(line)) = line` for a line written by
+another agent — does not hold and is not claimed: `from_sdp` ignores every extension attribute it does not
+know (`generation`, `ufrag`, `network-id`, `network-cost`, …; browsers always send some), lower-cases the
+transport and strips a `candidate:` prefix. Stated for extension tokens: a well-formed candidate line followed
+by any extension pair `k v` (k ≠ `tcptype`) parses to the same candidate as the line without it, so printing
+it again yields the shorter line. -/
+theorem candidate_line_extensions_dropped (T : AddrText) (c : Cand) (k v : Str) (h : WfCand T c)
+    (hnone : c.tcpType = none ∧ c.related = none) (hk : IsTok k) (hv : IsTok v) (hne : k ≠ "tcptype".toList) :
+    fromSdp T (joinSp (toParts T c ++ [k, v])) = .ok c ∧ (toParts T c ++ [k, v]).length = (toParts T c).length + 2 :=
+  ⟨fromSdp_with_extension T c k v h hnone hk hv hne, by simp⟩
+
 /-- non-vacuity: a server-reflexive UDP candidate with a related address, for a (table) `AddrText` that
 behaves like std on its two addresses, satisfies `WfCand`. -/
 example :
@@ -496,7 +522,7 @@ example :
 turn(s)) parses to its kind, host, the explicit or default port (3478 / 5349) and the explicit or default
 transport (udp / tcp for the secure schemes). -/
 theorem ice_server_uri_parse (sc : IceUri.Scheme) (host : Str) (port : Option Nat) (tr : Option IceUri.Tr)
-    (hh1 : ':' ∉ host) (hh2 : '?' ∉ host) (hp : ∀ p, port = some p → p ≤ 65535)
+    (_hne : host ≠ []) (hh1 : ':' ∉ host) (hh2 : '?' ∉ host) (hp : ∀ p, port = some p → p ≤ 65535)
     (hstun : sc.kind = .stun → tr = none) :
     IceUri.parse (IceUri.printUri sc host port tr) =
       .ok ⟨sc.kind, host, port.getD sc.port, tr.getD sc.tr⟩ :=
@@ -505,6 +531,16 @@ theorem ice_server_uri_parse (sc : IceUri.Scheme) (host : Str) (port : Option Na
 example : IceUri.printUri .turns "example.org".toList (some 443) (some .udp) = "turns:example.org:443?transport=udp".toList ∧
     IceUri.printUri .stun "192.0.2.1".toList none none = "stun:192.0.2.1".toList := by
   constructor <;> simp [IceUri.printUri, IceUri.portPart, IceUri.queryPart, IceUri.Scheme.str, IceUri.Tr.str, showDec, digitChar]
+
+/-- RFC 7064 §3.1 allows an IP-literal host; `IceServerUri::parse` splits host and port at the LAST `:` and
+therefore rejects `stun:[2001:db8::1]` (no port) with "invalid port" — an RFC deviation in an anchored
+mechanism (the property statement does not mention URIs; recorded, not repaired). With an explicit port the
+literal is accepted and the host keeps its brackets. -/
+theorem ice_server_uri_ipv6_literal_witness :
+    IceUri.parse "stun:[2001:db8::1]".toList = .error .port ∧
+    IceUri.parse "stun:[2001:db8::1]:3478".toList = .ok ⟨.stun, "[2001:db8::1]".toList, 3478, .udp⟩ := by
+  constructor <;> simp [IceUri.parse, IceUri.splitOnce, IceUri.splitQuery, IceUri.hostPort, IceUri.rsplitOnce, parseUInt, parseDigits,
+    digitVal, IceUri.defaultPort, IceUri.defaultTransport, IceUri.queryTransport, IceUri.finish, IceUri.containsSub]
 
 /-! ### alignment -/
 
